@@ -121,10 +121,12 @@ const ANY: [u8; 4] = [0, 0, 0, 0];
 const BCAST: [u8; 4] = [255, 255, 255, 255];
 
 pub fn scenario(run: u64, rng: &mut SmallRng) {
-    let arp = rng.gen_range(0..3) == 0;
+    // ARP on every machine, on none, or on some (a sender without ARP broadcasts its frames, one with ARP addresses the owner)
+    let arp_mode = rng.gen_range(0..4);
     let mtu = [100u16, 1500][rng.gen_range(0..2)];
     let net = NetworkBuilder::new().mtu(mtu).build();
     let nm = rng.gen_range(2..=4usize);
+    let arps: Vec<bool> = (0..nm).map(|_| match arp_mode { 0 => true, 1 | 2 => false, _ => rng.gen_range(0..2) == 0 }).collect();
     let ports = [7u16, 9, 53];
     // machine k owns 10.0.0.(10k+1) and 10.0.0.(10k+2)
     let own = |k: usize, j: u8| -> [u8; 4] { [10, 0, 0, (10 * k) as u8 + j] };
@@ -151,7 +153,7 @@ pub fn scenario(run: u64, rng: &mut SmallRng) {
         let app = rng.gen_range(0..3usize);
         let tm = rng.gen_range(0..nm);
         let dst_addr = match rng.gen_range(0..8) {
-            0 if !arp => BCAST,
+            0 if !arps[m] => BCAST,
             1 => [10, 0, 0, 250], // nobody's address
             2 => own(tm, 2),
             _ => own(tm, 1),
@@ -175,7 +177,7 @@ pub fn scenario(run: u64, rng: &mut SmallRng) {
     }
     let bj: Vec<Value> = (0..nm).map(|m| json!((0..3).map(|a| json!(binds[m][a].iter().map(|b| json!([b.0, b.1])).collect::<Vec<_>>())).collect::<Vec<_>>())).collect();
     let replies = rng.gen_range(0..2) == 0;
-    begin_run(run, json!({"arp":arp,"mtu":mtu,"nm":nm,"binds":bj,"replies":replies}));
+    begin_run(run, json!({"arps":arps,"mtu":mtu,"nm":nm,"binds":bj,"replies":replies}));
     let machines: Vec<Arc<Machine>> = (0..nm)
         .map(|m| {
             let table: IpTable<Recipient> = [("0.0.0.0/0", Recipient::new(0, None))].into_iter().collect();
@@ -186,7 +188,7 @@ pub fn scenario(run: u64, rng: &mut SmallRng) {
                 .with(App::<0> { m, binds: binds[m][0].clone(), sends: sends[m][0].clone(), controller: m == 0, replies })
                 .with(App::<1> { m, binds: binds[m][1].clone(), sends: sends[m][1].clone(), controller: false, replies })
                 .with(App::<2> { m, binds: binds[m][2].clone(), sends: sends[m][2].clone(), controller: false, replies });
-            if arp {
+            if arps[m] {
                 mach = mach.with(Arp::new());
             }
             mach.arc()
